@@ -1,8 +1,8 @@
 From Coq Require Import Extraction ExtrOcamlBasic.
-From RU Require Import Base.Prelude Base.Utf8 Spec.Whatwg.
+From RU Require Import Base.Prelude Base.Utf8 Spec.Whatwg Spec.WhatwgHost Spec.WhatwgHostParse.
 Extraction Language OCaml.
 Cd "../build/ocaml".
 Extraction "spec_model.ml"
   spec_basic_url_parse spec_basic_url_parse_override spec_url_parse spec_api_list spec_api
-  spec_set spec_set_seq serialize_url.
+  spec_set spec_set_seq serialize_url spec_host_parser spec_host_serializer.
 Cd "../../coq".
